@@ -28,9 +28,12 @@ import numpy
 from harness.common import Ctx, Result, Disagreement, OracleFailure, enc, dec_arr, family_close, jsonable
 
 ASSUMPTIONS = [
-    "inputs as in the property's quantifier: 1-8 q-points, 3N modes for N = 1..10, frequencies 30-1500 cm^-1 "
+    "inputs as in the property's quantifier: 1-8 q-points (and, beyond it, 63/64/65/128/129 and other counts > 64 on the stub calculator: "
+    "the statement itself is for any spectrum), 3N modes for N = 1..10, frequencies 30-1500 cm^-1 "
     "(Gamma acoustic entries 0 / slightly negative / NaN-gamma as the real calculator produces them), gamma in [-1,4], "
-    "V dgamma/dV in [-3,3], positive weights (normalised or not), T grids containing 0 and T >= 20 K, strain fractions in "
+    "V dgamma/dV in [-3,3], positive weights (integer multiplicities, normalised, arbitrary, sums just off a whole number or near a "
+    "half-integer), T grids with T = 0 first / elsewhere / repeated / absent / -0.0 and T >= 20 K otherwise, total pressure above and "
+    "below the static pressure, strain fractions in "
     "(0.05,0.9) summing to 1",
     "the oracle's spectra are analytic in V (power law times exp(c ln^2)); arbitrary arrays are covered by the theorem + "
     "correspondence, not by the oracle",
@@ -185,29 +188,75 @@ def gen_strain(rng, nv: int) -> numpy.ndarray:
     return out
 
 
-def gen_grids(rng, thorough: bool):
+T_STYLES = ["first0", "first0", "first0", "first0", "absent", "absent", "not_first", "not_first", "repeated", "repeated",
+            "negzero", "shuffled"]
+
+
+def gen_grids(rng, thorough: bool, t_style: Optional[str] = None):
+    """(nv, nt, v0, v[nv] descending, t[nt]).  Temperature grids: T = 0 first (the usual T_MIN = 0 grid), absent (T_MIN > 0),
+    not in the first row, repeated, -0.0, or a shuffled grid; the masks of the code must address rows BY VALUE."""
     nv = int(rng.integers(1, 6 if thorough else 4))
     nt = int(rng.integers(1, 6 if thorough else 4))
     v0 = float(rng.uniform(60.0, 1500.0))
     v = v0 * numpy.sort(rng.uniform(0.82, 1.08, size=nv))[::-1]
+    style = t_style or str(rng.choice(T_STYLES))
+    if style in ("not_first", "repeated", "shuffled") and nt < 2:
+        nt = int(rng.integers(2, 5))
     t = numpy.sort(rng.uniform(20.0, 3000.0, size=nt))
-    if rng.random() < 0.75:
-        t[0] = 0.0
     if nt > 1 and rng.random() < 0.3:
-        t[1] = 20.0
-    if rng.random() < 0.1:
-        t = t[rng.permutation(nt)]            # T = 0 not necessarily first
+        t[-1 if style == "not_first" else 1] = 20.0
+    if style == "first0":
+        t[0] = 0.0
+    elif style == "negzero":
+        t[0] = -0.0
+    elif style == "not_first":
+        t[int(rng.integers(1, nt))] = 0.0
+    elif style == "repeated":
+        idx = rng.permutation(nt)[:int(rng.integers(2, nt + 1))]
+        t[idx] = 0.0
+    elif style == "shuffled":
+        t[0] = 0.0
+        t = t[rng.permutation(nt)]
     return nv, nt, v0, v.copy(), t.copy()
 
 
+def t_style_of(t) -> str:
+    """classification of a temperature grid by where its zeros are (for the evidence)"""
+    z = [i for i, x in enumerate(t) if float(x) == 0.0]
+    if not z: return "T0_absent"
+    if len(z) > 1: return "T0_repeated"
+    return "T0_first_row" if z == [0] else "T0_not_first_row"
+
+
+W_TARGET_SUMS = [1.0 - 1e-4, 2.0 - 2e-7, 0.9999, 1.0001, 0.5, 1.4999, 2.5, 63.5, 64.4999]
+
+
 def gen_weights(rng, nq: int) -> numpy.ndarray:
+    """positive weights: integer multiplicities, normalised to 1, arbitrary, or scaled to a sum that is NOT a whole number
+    (just below / above 1 or 2, half-integers): numpy.average must divide by the exact sum"""
     w = rng.integers(1, 13, size=nq).astype(float)
-    s = rng.integers(0, 3)
+    s = rng.integers(0, 5)
     if s == 1:
         w = w / w.sum()
     elif s == 2:
         w = rng.uniform(0.01, 5.0, size=nq)
+    elif s >= 3:
+        w = rng.uniform(0.05, 1.0, size=nq)
+        w = w * (float(rng.choice(W_TARGET_SUMS)) / w.sum())
     return w
+
+
+def w_style_of(w) -> str:
+    w = numpy.asarray(w, dtype=float)
+    tot = float(w.sum())
+    if numpy.all(w == numpy.round(w)): return "integer_multiplicities"
+    if abs(tot - 1.0) < 1e-12: return "sum_1"
+    if abs(tot - round(tot)) < 2e-4: return "sum_near_whole_number"
+    if abs(abs(tot - round(tot)) - 0.5) < 2e-4: return "sum_near_half_integer"
+    return "generic"
+
+
+BIG_NQ = [63, 64, 65, 128, 129]
 
 
 def gamma_fill(rng, arr: numpy.ndarray, what: str):
@@ -226,13 +275,15 @@ def analytic_params(rng, thorough: bool, size: str = "any") -> Dict[str, Any]:
     """Parameters of an analytic spectrum + grids; everything else is derived deterministically (`build_case`)."""
     if size == "small":
         nq, na = int(rng.integers(1, 3)), int(rng.integers(1, 3))
+    elif isinstance(size, tuple):           # ("bigq", nq): many q-points, few atoms (the stub needs no qha run)
+        nq, na = int(size[1]), int(rng.integers(1, 3))
     elif size == "large":
         nq, na = int(rng.integers(5, 9)), int(rng.integers(6, 11))
     else:
         nq, na = int(rng.integers(1, 9)), int(rng.integers(1, 11))
     np_ = 3 * na
     nv, nt, v0, v, t = gen_grids(rng, thorough)
-    if size == "large":
+    if size == "large" or isinstance(size, tuple):
         nv, nt = min(nv, 2), min(nt, 2)
         v, t = v[:nv], t[:nt]
     w0 = rng.uniform(30.0, 1500.0, size=(nq, np_))
@@ -254,8 +305,11 @@ def analytic_params(rng, thorough: bool, size: str = "any") -> Dict[str, Any]:
     k_ry = 6.3336e-6
     # magnitudes comparable to the phonon terms so that no part hides behind another in the family scale
     scale = 3 * na * k_ry * 1000.0 / v0
-    P = rng.uniform(-1.0, 3.0, size=(nt, nv)) * scale
     pst = rng.uniform(-1.0, 3.0, size=nv) * scale
+    if rng.random() < 0.25:                   # total pressure below the static pressure at every grid point
+        P = pst[None, :] - rng.uniform(0.05, 3.0, size=(nt, nv)) * scale
+    else:
+        P = rng.uniform(-1.0, 3.0, size=(nt, nv)) * scale
     # "all positive heat-capacity fields": log-uniform over 9 decades (C_V is tiny at low T), not just O(3 N k_B)
     cv = 3 * na * k_ry * 10.0 ** rng.uniform(-9.0, 0.5, size=(nt, nv))
     return {"kind": "analytic", "nq": nq, "na": na, "v0": v0, "v": v.tolist(), "t": t.tolist(),
@@ -285,9 +339,12 @@ def build_case(par: Dict[str, Any]) -> Dict[str, Any]:
             "pst": numpy.array(par["pst"], dtype=float), "cv": numpy.array(par["cv"], dtype=float)}
 
 
-def free_case(rng, thorough: bool) -> Dict[str, Any]:
+def free_case(rng, thorough: bool, nq: Optional[int] = None) -> Dict[str, Any]:
     """Arbitrary arrays (no functional relation between volumes): correspondence stream only."""
-    nq, na = int(rng.integers(1, 9)), int(rng.integers(1, 11))
+    if nq is None:
+        nq, na = int(rng.integers(1, 9)), int(rng.integers(1, 11))
+    else:
+        nq, na = int(nq), int(rng.integers(1, 4))
     np_ = 3 * na
     nv, nt, v0, v, t = gen_grids(rng, thorough)
     freq = rng.uniform(30.0, 1500.0, size=(nv, nq, np_))
@@ -301,9 +358,13 @@ def free_case(rng, thorough: bool) -> Dict[str, Any]:
             gamma_fill(rng, a, fill)
     k_ry = 6.3336e-6
     scale = 3 * na * k_ry * 1000.0 / v0
+    pst = rng.uniform(-1.0, 3.0, size=nv) * scale
+    P = rng.uniform(-1.0, 3.0, size=(nt, nv)) * scale
+    if rng.random() < 0.25:
+        P = pst[None, :] - rng.uniform(0.05, 3.0, size=(nt, nv)) * scale
     return {"nv": nv, "np": np_, "nq": nq, "na": na, "v": v, "t": t, "freq": freq, "mg0": vdr, "mg1": gamma, "mg2": g2,
-            "w": gen_weights(rng, nq), "e": gen_strain(rng, nv), "P": rng.uniform(-1.0, 3.0, size=(nt, nv)) * scale,
-            "pst": rng.uniform(-1.0, 3.0, size=nv) * scale, "cv": 3 * na * k_ry * 10.0 ** rng.uniform(-9.0, 0.5, size=(nt, nv))}
+            "w": gen_weights(rng, nq), "e": gen_strain(rng, nv), "P": P,
+            "pst": pst, "cv": 3 * na * k_ry * 10.0 ** rng.uniform(-9.0, 0.5, size=(nt, nv))}
 
 
 COMPONENTS = [("long", (0, 0)), ("long", (1, 1)), ("long", (2, 2)), ("off", (0, 1)), ("off", (0, 2)), ("off", (1, 2)),
@@ -386,7 +447,13 @@ def oracle_check(par, which=("zp", "th", "iso", "press"), comps=COMPONENTS, deri
     d = derivs if derivs is not None else oracle_derivs(par)
     bad = []
     for kind, ij in comps:
-        impl = run_impl(case, kind, ij)
+        try:
+            impl = run_impl(case, kind, ij)
+        except Exception as ex:                  # the real classes must not raise on an input of the quantifier
+            exp = oracle_expected(par, kind, ij, d)
+            f0 = which[0] if which and which[0] in exp else "iso"
+            bad.append((kind, list(ij), f0, f"raises {type(ex).__name__}: {ex}"[:300], exp[f0], float("inf")))
+            continue
         impl["press"] = impl["iso"] - impl["zp"][None] - impl["th"]
         impl["gapdiff"] = impl["adia"] - impl["iso"]
         exp = oracle_expected(par, kind, ij, d)
@@ -506,6 +573,8 @@ def shrink(par, b, which):
 
     cur, curb = par, b
     # one (t, v) point: choose the worst one
+    if isinstance(b[3], str):
+        return par, b
     obs, exp = numpy.asarray(b[3]), numpy.asarray(b[4])
     diff = numpy.abs(numpy.nan_to_num(obs - exp, nan=numpy.inf))
     if diff.ndim == 2:
@@ -536,8 +605,13 @@ def _compare_model(res: Result, case, consts, comps, ctx: Ctx, tag: str, fields=
     outs = ctx.driver.ask(ops)
     n_ok = 0
     for (kind, ij), out in zip(comps, outs):
-        impl = run_impl(case, kind, ij, calc=(stub_factory(case) if stub_factory else None))
         res.evaluations += 1
+        try:
+            impl = run_impl(case, kind, ij, calc=(stub_factory(case) if stub_factory else None))
+        except Exception as ex:
+            res.disagreements.append(Disagreement("c01." + kind, {"tag": tag, "ij": list(ij), "case": _case_json(case)},
+                                                  f"raises {type(ex).__name__}: {ex}"[:300], "arrays"))
+            continue
         if isinstance(out, str):
             res.disagreements.append(Disagreement("c01." + kind, {"tag": tag, "ij": list(ij)}, "arrays", out))
             continue
@@ -586,17 +660,37 @@ def _avg_oracle(x, w):
     return None
 
 
-def _avg_stream(res: Result, ctx: Ctx, n: int):
-    """average_over_modes alone: the real function vs the model, including shapes [q][m] with np < 3."""
+def _avg_shape(rng):
+    """(nq, np): 1-8 q-points as in the quantifier, and — cheap on the bare function — 63, 64, 65, 128, 129 and other counts > 64"""
+    r = rng.random()
+    if r < 0.25:
+        nq = int(rng.choice(BIG_NQ))
+    elif r < 0.4:
+        nq = int(rng.integers(66, 300))
+    else:
+        nq = int(rng.integers(1, 9))
+    return nq, int(rng.choice([1, 2, 3, 4, 6, 9, 30]))
+
+
+def _avg_stream(res: Result, ctx: Ctx, n: int, dist: Optional[dict] = None):
+    """average_over_modes alone: the real function vs the model ("c01.avg"), vs the evaluation of the TRANSLATED method / module
+    function / reduction tree ("c01.avgsrc") and vs the independent formula of `_avg_oracle`; shapes [q][m] include np < 3,
+    nq in {63, 64, 65, 128, 129} and other nq > 64; weights include sums just off a whole number."""
     from cij.core.phonon_contribution.nonshear import average_over_modes
     rng = ctx.rng
+    dist = dist if dist is not None else {}
+    dist.setdefault("avg_nq", {}); dist.setdefault("avg_weights", {}); dist.setdefault("avg_cases", 0)
     ops, impls = [], []
     for _ in range(n):
-        nq = int(rng.integers(1, 9)); np_ = int(rng.choice([1, 2, 3, 4, 6, 9, 30]))
+        nq, np_ = _avg_shape(rng)
         x = rng.normal(size=(nq, np_)) * 10.0 ** rng.integers(-3, 4)
         if rng.random() < 0.3:
             x[0, :3] = numpy.nan
         w = gen_weights(rng, nq)
+        key = str(nq) if nq in BIG_NQ else ("1-8" if nq <= 8 else "66-299")
+        dist["avg_nq"][key] = dist["avg_nq"].get(key, 0) + 1
+        dist["avg_weights"][w_style_of(w)] = dist["avg_weights"].get(w_style_of(w), 0) + 1
+        dist["avg_cases"] += 1
         xc = x.copy()
         bad = _avg_oracle(x, w)
         if bad is not None:
@@ -605,21 +699,54 @@ def _avg_stream(res: Result, ctx: Ctx, n: int):
         try:
             impls.append(float(average_over_modes(x, w)))
         except Exception as e:          # already reported by _avg_oracle; keep the stream going
-            impls.append(float("nan") if False else None)
+            impls.append(None)
         if not numpy.array_equal(x, xc, equal_nan=True):
             res.oracle_failures.append(OracleFailure("average_over_modes modified its argument", {"x": x.tolist()}, site="C01:avg:inplace"))
         ops.append({"op": "c01.avg", "x": enc(xc), "w": enc(w)})
+        ops.append({"op": "c01.avgsrc", "x": enc(xc), "w": enc(w)})
+        if len(res.oracle_failures) >= 3:
+            break
     outs = ctx.driver.ask(ops)
     from harness.common import b2f
-    for op, imp, out in zip(ops, impls, outs):
+    for k, (op, out) in enumerate(zip(ops, outs)):
+        imp = impls[k // 2]
         res.evaluations += 1
+        if isinstance(out, str) and out.startswith("error"):
+            res.disagreements.append(Disagreement(op["op"], {"x": "array", "w": "array"}, imp, out)); continue
         m = b2f(out)
         if imp is None:
-            res.disagreements.append(Disagreement("c01.avg", op, "error", m)); continue
+            res.disagreements.append(Disagreement(op["op"], op, "error", m)); continue
         if not (abs(imp - m) <= 1e-12 * max(abs(imp), abs(m), 1e-300) + 1e-300 or (math.isnan(imp) and math.isnan(m))):
-            res.disagreements.append(Disagreement("c01.avg", op, imp, m))
+            res.disagreements.append(Disagreement(op["op"], op, imp, m))
         else:
             res.traces_validated += 1
+
+
+def _mask_stream(res: Result, ctx: Ctx, n: int, dist: Optional[dict] = None):
+    """the translated `ret[numpy.where(self.t_array == 0), :] = 0` statements ("c01.masksrc": `NSGlue.applyMasks` on the generated
+    masks of thermal_contribution) against numpy executing that very statement, on temperature grids with T = 0 first, elsewhere,
+    repeated, absent, -0.0 — validates the evaluator's reading of the statement (a contract measurement, not a property oracle)"""
+    rng = ctx.rng
+    ops, exps = [], []
+    for _ in range(n):
+        nv, nt, v0, v, t = gen_grids(rng, True)
+        x = rng.normal(size=(nt, nv))
+        ret = x.copy()
+        ret[numpy.where(t == 0), :] = 0
+        ops.append({"op": "c01.masksrc", "t": enc(t), "x": enc(x)}); exps.append(ret)
+        if dist is not None:
+            dist.setdefault("mask_grids", {})
+            dist["mask_grids"][t_style_of(t)] = dist["mask_grids"].get(t_style_of(t), 0) + 1
+    outs = ctx.driver.ask(ops)
+    for op, exp, out in zip(ops, exps, outs):
+        res.evaluations += 1
+        if isinstance(out, str):
+            res.disagreements.append(Disagreement("c01.masksrc", op, exp.tolist(), out)); continue
+        ok = all(numpy.array_equal(dec_arr(out[k]).reshape(exp.shape), exp) for k in ("long", "off"))
+        if ok:
+            res.traces_validated += 1
+        else:
+            res.disagreements.append(Disagreement("c01.masksrc", op, exp.tolist(), {k: dec_arr(out[k]).tolist() for k in ("long", "off")}))
 
 
 WHICH = ("zp", "th", "iso", "press")
@@ -647,14 +774,31 @@ def run(ctx: Ctx, which=WHICH, pid=PID, fields=("zp", "th", "iso")) -> Result:
             for b in oracle_check(item["par"], which=which):
                 res.oracle_failures.append(failure_from(item["par"], b, pid))
     # ---- average_over_modes alone
+    dist = {"nq": {}, "na": {}, "nt": {}, "nv": {}, "has_T0": 0, "weights_normalised": 0, "pure_power_law": 0,
+            "gamma_fill": {}, "analytic_cases": 0, "free_cases": 0, "grid_points_oracle": 0, "components": 0,
+            "t_grid": {}, "weights": {}, "nq_big": {}, "grid_points_pressure_term_negative": 0,
+            "cases_pressure_term_negative_everywhere": 0, "cases_nv_ge2_distinct_strain_rows": 0}
+
+    def count_case(case_like, t, w, P, pst, e, nq):
+        dist["t_grid"][t_style_of(t)] = dist["t_grid"].get(t_style_of(t), 0) + 1
+        dist["weights"][w_style_of(w)] = dist["weights"].get(w_style_of(w), 0) + 1
+        if nq > 8:
+            dist["nq_big"][str(nq)] = dist["nq_big"].get(str(nq), 0) + 1
+        d = numpy.asarray(P, dtype=float) - numpy.asarray(pst, dtype=float)[None, :]
+        dist["grid_points_pressure_term_negative"] += int((d < 0).sum())
+        dist["cases_pressure_term_negative_everywhere"] += int(bool((d < 0).all()))
+        e = numpy.asarray(e, dtype=float)
+        dist["cases_nv_ge2_distinct_strain_rows"] += int(e.shape[0] >= 2 and not numpy.allclose(e, e[0][None, :]))
+
     if pid == "C01":
-        _avg_stream(res, ctx, 300 if thorough else 60)
+        _avg_stream(res, ctx, 300 if thorough else 80, dist)
+        _mask_stream(res, ctx, 120 if thorough else 30, dist)
     # ---- analytic spectra: correspondence + oracle
     n_analytic = (140 if thorough else 22)
-    sizes = ["small"] * 3 + ["any"] * (n_analytic - 5) + ["large"] * 2
-    dist = {"nq": {}, "na": {}, "nt": {}, "nv": {}, "has_T0": 0, "weights_normalised": 0, "pure_power_law": 0,
-            "gamma_fill": {}, "analytic_cases": 0, "free_cases": 0, "grid_points_oracle": 0, "components": 0}
+    big = [("bigq", int(q_)) for q_ in (BIG_NQ if thorough else [int(rng.choice(BIG_NQ[:2])), int(rng.choice(BIG_NQ[2:]))])]
+    sizes = ["small"] * 3 + big + ["any"] * (n_analytic - 5 - len(big)) + ["large"] * 2
     seen = set()
+    prev_pars = []
     budget = 420.0 if thorough else 45.0
     for idx, size in enumerate(sizes):
         if time.time() - t_start > budget and idx >= 8:
@@ -666,6 +810,7 @@ def run(ctx: Ctx, which=WHICH, pid=PID, fields=("zp", "th", "iso")) -> Result:
         for key, val in (("nq", par["nq"]), ("na", par["na"]), ("nt", len(par["t"])), ("nv", len(par["v"]))):
             dist[key][str(val)] = dist[key].get(str(val), 0) + 1
         dist["has_T0"] += int(0.0 in par["t"])
+        count_case(par, par["t"], par["w"], par["P"], par["pst"], par["e"], par["nq"])
         dist["weights_normalised"] += int(abs(sum(par["w"]) - 1.0) < 1e-12)
         dist["pure_power_law"] += int(not numpy.any(numpy.array(par["c"])))
         dist["gamma_fill"][par["gamma_mg"]] = dist["gamma_fill"].get(par["gamma_mg"], 0) + 1
@@ -681,14 +826,28 @@ def run(ctx: Ctx, which=WHICH, pid=PID, fields=("zp", "th", "iso")) -> Result:
         seen.add((par["nq"], par["na"], len(par["t"]), len(par["v"]), par["fill_seed"]))
         if bad:
             b = bad[0]
-            try:
-                spar, sb = shrink(par, b, which)
-            except Exception:
-                spar, sb = par, b
-            res.oracle_failures.append(failure_from(spar, sb, pid))
+            one = [(b[0], tuple(b[1]))]
+            hist = None
+            if not oracle_check(par, which=(b[2],), comps=one, derivs=d) and prev_pars:
+                # not reproducible on its own: the outcome depended on what was computed before in this process
+                k, hb, st = oracle_history(prev_pars[-2:] + [par], (b[2],), one)
+                if hb is not None:
+                    hist = failure_from(par, hb, pid)
+                    hist.input = {"history": (prev_pars[-2:] + [par])[:k + 1], "kind": hb[0], "ij": hb[1], "field": hb[2]}
+                    hist.what = f"after {k} earlier calculation(s) in this process: " + hist.what
+                    hist.site = f"{pid}:history:{hb[0]}:{hb[2]}"
+            if hist is not None:
+                res.oracle_failures.append(hist)
+            else:
+                try:
+                    spar, sb = shrink(par, b, which)
+                except Exception:
+                    spar, sb = par, b
+                res.oracle_failures.append(failure_from(spar, sb, pid))
             if len(res.oracle_failures) >= 3:
                 break
-        if len(res.samples) < 3:
+        prev_pars.append(par)
+        if len(res.samples) < 3 and not bad:
             impl = run_impl(case, comps[0][0], comps[0][1])
             exp = oracle_expected(par, comps[0][0], comps[0][1], d)
             res.samples.append({"nq": par["nq"], "na": par["na"], "t": par["t"], "v": par["v"], "w": par["w"],
@@ -701,8 +860,10 @@ def run(ctx: Ctx, which=WHICH, pid=PID, fields=("zp", "th", "iso")) -> Result:
         if time.time() - t_start > budget + (100.0 if thorough else 20.0):
             res.notes.append(f"free stream stopped after {idx} cases (time budget)")
             break
-        case = free_case(rng, thorough)
+        # every 6th free case has 63 / 64 / 65 / 128 / 129 q-points (cheap: the stub needs no qha run)
+        case = free_case(rng, thorough, nq=(BIG_NQ[(idx // 6) % len(BIG_NQ)] if idx % 6 == 5 else None))
         dist["free_cases"] += 1
+        count_case(case, case["t"], case["w"], case["P"], case["pst"], case["e"], case["nq"])
         comps = [COMPONENTS[i] for i in rng.permutation(len(COMPONENTS))[:2]]
         _compare_model(res, case, consts, comps, ctx, f"free#{idx}", fields=fields)
         seen.add((case["nq"], case["na"], len(case["t"]), len(case["v"]), float(case["freq"].ravel()[-1])))
@@ -783,6 +944,23 @@ def search(ctx: Ctx, res: Result, which=WHICH, pid=PID) -> List[OracleFailure]:
     out = []
     t0 = time.time()
     n = 0
+    # the bare averaging function on many shapes (cheap), then whole spectra with many q-points
+    for _ in range(400):
+        nq, np_ = _avg_shape(ctx.rng)
+        x = ctx.rng.normal(size=(nq, np_)); w = gen_weights(ctx.rng, nq)
+        bad = _avg_oracle(x, w)
+        if bad is not None:
+            out.append(OracleFailure(bad[0], {"avg": {"x": [[repr(float(v)) for v in r] for r in x], "w": [repr(float(v)) for v in w]}},
+                                     observed=bad[1], expected=bad[2], site=f"{pid}:avg:" + bad[0].split(":")[0]))
+            res.notes.append("search: failing input found on average_over_modes alone")
+            return out
+    for nq in BIG_NQ:
+        par = analytic_params(ctx.rng, False, ("bigq", nq))
+        bad = oracle_check(par, which=which, comps=COMPONENTS[:1] + COMPONENTS[3:4])
+        n += 1
+        if bad:
+            out.append(failure_from(par, bad[0], pid))
+            return out
     while time.time() - t0 < (240.0 if ctx.thorough() else 60.0) and n < 400:
         par = analytic_params(ctx.rng, ctx.thorough(), "small" if n < 40 else "any")
         bad = oracle_check(par, which=which)
